@@ -28,6 +28,7 @@ Sc(st) == [n |-> st.n, th |-> st.theta, lg |-> st.lgCur, emp |-> st.empty]
 ObsOK(n, theta, mx, empty, lgNom, o) ==
   /\ On("C01") => NonDecreasing(o.b)
   /\ (On("C01") \/ On("C04")) => (theta = mx => o.estn = n)
+  /\ (On("C01") \/ On("C04")) => o.estm = (theta < mx)   \* exact mode is claimed exactly when nothing was screened
   /\ On("C01") => (~empty /\ theta < mx => o.ubpos)        \* screened-out sampling sketch: ub > 0
   /\ On("C04") => (o.emp = empty /\ o.n = n /\ o.est0 = (empty \/ n = 0))
   /\ On("C18") => o.n <= (15 * P2(lgNom + 1)) \div 16
